@@ -32,7 +32,7 @@ ANCHORS = ['parse_one_cell', 'apply_but', 'parse_keywords', 'cellcard.py:split',
 REQUIRED_REACH = ['ParseMCNPCell.parse_one_cell', 'ParseMCNPCell.apply_but',
                   'ParseMCNPCell.parse_keywords']
 FAMILIES = ['trcl', 'mat-rho', 'rho-only', 'imp', 'u', 'fill', 'chain', 'forward',
-            'everything', 'base-has-all']
+            'everything', 'base-has-all', 'lattice-cli']
 _PER = {'quick': 16, 'thorough': 3000}
 
 SLOTS = [(-5.0, -5.0, 0.0), (0.0, -5.0, 1.0), (5.0, -5.0, -1.0),
@@ -44,7 +44,80 @@ def plan(tier):
     return [(fam, _PER[tier]) for fam in FAMILIES]
 
 
+def build_lattice_cli(case):
+    '''A LIKE copy of a lattice cell whose ranges come from --lattice: the
+    copy has ranges of its own on the command line.'''
+    rng = case.rng
+    deck = M.Deck('C15 lattice-cli')
+    deck.world = 12.0
+    for mid in range(1, 5):
+        deck.mats.append(M.Material(mid, [('13027', '1')]))
+    deck.surfs.append(M.Surf(701, 's', [rnd(rng, -0.1, 0.1), rnd(rng, -0.1, 0.1),
+                                        0.0, rnd(rng, 0.3, 0.5)]))
+    deck.cells.append(M.Cell(701, mat=1, rho='-1.5', geom=M.S(-701),
+                             imp={'n': '1'}, u=7))
+    deck.cells.append(M.Cell(702, mat=2, rho='-2.5', geom=M.S(701),
+                             imp={'n': '1'}, u=7))
+    px, py = rnd(rng, 1.2, 1.8), rnd(rng, 1.2, 1.8)
+    x0, y0 = rnd(rng, -0.2, 0.2), rnd(rng, -0.2, 0.2)
+    deck.surfs += [M.Surf(21, 'px', [x0 + px / 2]), M.Surf(22, 'px', [x0 - px / 2]),
+                   M.Surf(23, 'py', [y0 + py / 2]), M.Surf(24, 'py', [y0 - py / 2])]
+
+    def ranges():
+        out = []
+        for _ in range(2):
+            low = rng.randint(-2, 0)
+            out.append((low, low + rng.randint(1, 2)))
+        return out
+    r20 = ranges()
+    r30 = ranges()
+    while r30 == r20:
+        r30 = ranges()
+    fil = M.Fill(universe=7)
+    fil.ranges = r20
+    lat = M.Cell(20, mat=3, rho='-3.5',
+                 geom=M.AND(M.S(-21), M.S(22), M.S(-23), M.S(24)),
+                 imp={'n': '1'}, u=5, lat=1, fill=fil)
+    lat.lat_info = M.LatticeTruth(1, [x0, y0, 0.0],
+                                  [np.array([px, 0, 0]), np.array([0, py, 0])])
+    new = lat.copy()
+    new.id = 30
+    new.like = 20
+    new.u = 6
+    new.but = ['u']
+    if rng.random() < 0.5:
+        new.mat = 4
+        new.rho = '-4.5'
+        new.but += ['mat', 'rho']
+        rng.shuffle(new.but)
+    new.fill = M.Fill(universe=7)
+    new.fill.ranges = r30
+    deck.cells += [lat, new]
+    centres = [(-5.5, 0.0, 0.0), (5.5, 0.0, 0.5)]
+    for k, (uni, cen) in enumerate(zip((5, 6), centres), start=1):
+        deck.surfs.append(M.Surf(k, 's', list(cen) + [rnd(rng, 4.0, 5.0)]))
+        deck.cells.append(M.Cell(k, mat=0, geom=M.S(-k), imp={'n': '1'},
+                                 fill=M.Fill(universe=uni, tr=tr_spec(
+                                     rng, Motion(list(cen)), 'inline3'))))
+        for i in range(-3, 4):
+            for j in range(-3, 4):
+                deck.hints.append(np.array(cen) + [x0 + i * px, y0 + j * py,
+                                                   rnd(rng, -1, 1)])
+    deck.cli = ['--lattice', '20,' + ','.join(f'{a}:{b}' for a, b in r20),
+                '--lattice', '30,' + ','.join(f'{a}:{b}' for a, b in r30)]
+    deck.surfs.append(M.Surf(WORLD_SURF, 'so', [12.0]))
+    deck.cells.append(M.Cell(90, mat=0, geom=M.AND(M.CELLC(1), M.CELLC(2),
+                                                   M.S(-WORLD_SURF)),
+                             imp={'n': '1'}))
+    deck.cells.append(M.Cell(900, mat=0, geom=M.S(WORLD_SURF), imp={'n': '0'}))
+    deck.cells.sort(key=lambda c: (c.u is not None, c.id))
+    deck.tags.add('c15.lattice-cli')
+    return deck
+
+
 def build(case):
+    if case.family == 'lattice-cli':
+        return build_lattice_cli(case)
     rng = case.rng
     fam = case.family
     deck = M.Deck(f'C15 {fam}')
